@@ -125,7 +125,7 @@ class Emitter:
         if k == "any":
             return "Any"
         if k == "enum":
-            return "Color"
+            return "LateColor" if a.get("late") else "Color"  # LateColor is defined after the classes
         if k == "lit":
             return "Literal[" + ", ".join(repr(v) for v in a["vals"]) + "]"
         if k == "newtype":
@@ -167,15 +167,16 @@ class Emitter:
         if self.postponed:
             return e
         later = self.node_name("Later")
-        if later not in e:
+        if later not in e and "LateColor" not in e:
             return e
-        if contains(a, lambda x: x["k"] == "union" and x.get("pipe")) or a["k"] == "node":
+        if contains(a, lambda x: x["k"] == "union" and x.get("pipe")) or a["k"] in ("node", "enum"):
             return repr(e)  # the whole annotation as one string literal
-        return e.replace(later, repr(later))  # string literal in place: Optional["Later"], tuple["Later", ...]
+        # string literal in place: Optional["Later"], tuple["Later", ...], frozenset["LateColor"]
+        return e.replace(later, repr(later)).replace("LateColor", repr("LateColor"))
 
 
 def forward_ok_for_newtype(a: dict) -> bool:
-    return not contains(a, lambda x: x["k"] == "node" and x["n"] == "Later")
+    return not contains(a, lambda x: (x["k"] == "node" and x["n"] == "Later") or (x["k"] == "enum" and x.get("late")))
 
 
 def default_for(a: dict) -> str:
@@ -220,7 +221,8 @@ def emit_module(classes: list[dict], postponed: bool, uid: int) -> tuple[str, Em
         f"@dataclass(frozen=True)\nclass NodeSub_{uid}(NodeA_{uid}):\n    m: int = 0\n\n"
         f"@dataclass(frozen=True)\nclass FalsyNode_{uid}(NodeA_{uid}):\n    def __len__(self):\n        return 0\n\n"
     )
-    tail = f"\n@dataclass(frozen=True)\nclass Later_{uid}(ASTNode):\n    n: int = 0\n"
+    tail = (f"\n@dataclass(frozen=True)\nclass Later_{uid}(ASTNode):\n    n: int = 0\n"
+            "\nclass LateColor(enum.Enum):\n    RED = 'red'\n")
     src = head + "\n".join(em.newtypes) + "\n" + body + tail
     return src, em
 
@@ -294,7 +296,24 @@ def new_uid() -> int:
     return _COUNTER[0]
 
 
+def ensure_shadow_nodes() -> None:
+    """another module of the process registers a NODE class whose simple name equals a non-node name
+    the ad-hoc modules use in annotations (their enum `Color`): names in annotations are looked up in
+    the defining module, never in the library's class-name registry"""
+    name = "pbt_shadow_nodes"
+    if name in sys.modules:
+        return
+    m = types.ModuleType(name)
+    m.__file__ = f"<{name}>"
+    sys.modules[name] = m
+    src = ("from dataclasses import dataclass\nfrom pyoak.node import ASTNode\n\n"
+           "@dataclass(frozen=True)\nclass Color(ASTNode):\n    n: int = 0\n\n"
+           "@dataclass(frozen=True)\nclass LateColor(ASTNode):\n    n: int = 0\n")
+    exec(compile(src, m.__file__, "exec", dont_inherit=True), m.__dict__)
+
+
 def build(classes: list[dict], postponed: bool, uid: int | None = None) -> Module:
+    ensure_shadow_nodes()
     uid = new_uid() if uid is None else uid
     src, _ = emit_module(classes, postponed, uid)
     return Module(src, uid)
@@ -303,7 +322,7 @@ def build(classes: list[dict], postponed: bool, uid: int | None = None) -> Modul
 # ------------------------------------------------------------------------------- strategies
 
 
-def st_annotation(max_depth: int = 3, allow_forward: bool = True, allow_rejected: bool = True):
+def st_annotation(max_depth: int = 3, allow_forward: bool = True, allow_rejected: bool = True, late_enum: bool = False):
     from hypothesis import strategies as st
 
     scalars = st.sampled_from(["int", "str", "float", "bool", "bytes"]).map(lambda n: {"k": "scalar", "n": n})
@@ -311,6 +330,7 @@ def st_annotation(max_depth: int = 3, allow_forward: bool = True, allow_rejected
         lambda n: {"k": "node", "n": n})
     leaf = st.one_of(
         scalars, scalars, nodes, nodes, nodes, st.just({"k": "none"}), st.just({"k": "any"}), st.just({"k": "enum"}),
+        *([st.just({"k": "enum", "late": True})] if late_enum else []),
         st.just({"k": "tuple_bare"}),
         st.sampled_from([["a", 1], ["NodeA"], [1, 2], ["x"]]).map(lambda v: {"k": "lit", "vals": v}),
     )
